@@ -538,7 +538,11 @@ def check_payload(acc: Acc, ent: Entry, block: Block, ctxval, payload: bytes, ta
             acc.part.violation("payload-fixpoint", site, witness, f"{_show(payload)} -> {_show(b1)} -> {_show(b2)}: not a fixed point after one pass")
         elif not sg.same(v1, v):
             where = sg.diff_path(v, v1)
-            acc.part.violation("payload-fixpoint-value", f"{ent.keystr}{lab}:{tag.split('@')[0]}:at={where}:{mode}", witness,
+            # tier 2: name the mutation kind and the member that changed, not the payload that was mutated (one root
+            # cause must not spread over every base payload's tag)
+            t0 = tag.split("@")[0]
+            what = t0 if tier == 1 else ("cross" if t0.startswith("cross~") else "~" + t0.rsplit("~", 1)[-1])
+            acc.part.violation("payload-fixpoint-value", f"{ent.keystr}{lab}:{what}:at={where}:{mode}", witness,
                                f"{_show(payload)} and its re-encoding {_show(b1)} decode to different values at {where}: {v!r:.300} vs {v1!r:.300}")
         else:
             acc.nontrivial((ent.idx, ctxval if ent.ctx_field else None, mode, "normalised", tag.split("@")[0]))
